@@ -1,14 +1,34 @@
 #!/bin/bash
-# seedrun.sh [Cxx ...]: apply each confirmed seed of the property to /repo, run ./check Cxx, undo; print caught/missed
+# seedrun.sh [Cxx ...]: every confirmed variant in /verif/seeded (breaking: Cxx-N, Cxx-bN; refactoring twins: Cxx-rN) and every
+# fix revert recorded for the property, applied to a scratch copy of /repo's working tree (VERIF_REPO); /repo is untouched.
 cd /verif
+run() { # pid label kind patchfile reverse
+  td=$(mktemp -d /tmp/vs-XXXXXX); cp -r /repo/pycoin $td/pycoin
+  if [ -n "$5" ]; then (cd $td && patch -p1 -R -s --no-backup-if-mismatch -i $4 >/dev/null 2>&1) || { echo "$2: revert does not apply"; rm -rf $td; return; }
+  else (cd $td && patch -p1 -s --no-backup-if-mismatch -i $4 >/dev/null 2>&1) || { echo "$2: patch failed"; rm -rf $td; return; }; fi
+  out=$(VERIF_REPO=$td ./check $1 --no-evidence 2>&1); code=$?
+  rm -rf $td
+  rules=$(echo "$out" | grep -E "^VIOLATED" | awk '{print $2}' | sort -u | tr '\n' ' ')
+  und=$(echo "$out" | grep -E "^UNDECIDED" | awk '{print $3}' | sort -u | tr '\n' ' ')
+  if [ "$3" = refactoring ]; then
+    if [ $code -eq 0 ]; then echo "$2: silent ${und:+(undecided $und)}"; elif [ $code -eq 1 ]; then echo "$2: FALSE ALARM by $rules"; else echo "$2: twin -> analysis-error: $(echo "$out" | grep ANALYSIS-ERROR | head -1 | cut -c1-200)"; fi
+  else
+    if [ $code -eq 1 ]; then echo "$2: CAUGHT by $rules"; elif [ $code -eq 2 ]; then echo "$2: analysis-error: $(echo "$out" | grep ANALYSIS-ERROR | head -1 | cut -c1-200)"; else echo "$2: MISSED ${und:+(undecided $und)}"; fi
+  fi
+}
 for d in seeded/*; do
   [ -f $d/patch.diff ] || continue
-  pid=$(basename $d | cut -d- -f1)
+  pid=$(basename $d | cut -d- -f1); k=$(basename $d | cut -d- -f2)
   if [ $# -gt 0 ] && [[ ! " $* " =~ " $pid " ]]; then continue; fi
-  [ -f rules/$pid.py ] || { echo "$(basename $d): no check"; continue; }
-  git -C /repo apply /verif/$d/patch.diff || { echo "$(basename $d): patch failed"; continue; }
-  out=$(./check $pid 2>&1); code=$?
-  git -C /repo checkout -- .
-  rules=$(echo "$out" | grep -E "^VIOLATED" | awk '{print $2}' | sort -u | tr '\n' ' ')
-  if [ $code -eq 1 ]; then echo "$(basename $d): CAUGHT by $rules"; elif [ $code -eq 2 ]; then echo "$(basename $d): analysis-error: $(echo "$out" | grep ANALYSIS-ERROR | head -2)"; else echo "$(basename $d): missed"; fi
+  case $k in r*) kind=refactoring;; *) kind=breaking;; esac
+  run $pid $(basename $d) $kind /verif/$d/patch.diff &
+  while [ $(jobs -r | wc -l) -ge 12 ]; do sleep 0.1; done
 done
+wait
+python3 - "$@" <<'PY' | while read pid commit; do git -C /repo show --format= $commit -- pycoin > /tmp/vs-revert-$commit.diff; run $pid "$pid-revert-$commit" breaking /tmp/vs-revert-$commit.diff R; rm -f /tmp/vs-revert-$commit.diff; done
+import json, sys
+want = set(sys.argv[1:])
+for f in json.load(open("/verif/known_findings.json"))["findings"]:
+    if f.get("status") == "fixed" and f.get("commit") and (not want or f["property"] in want):
+        print(f["property"], f["commit"])
+PY
